@@ -62,6 +62,12 @@ CHECKS = {
         design="§7 C09",
         note="Extraction against arbitrary efficient provers is the usual ROM step (assumed).",
         technique="Coq theorems about the verifier model's equality check + differential correspondence with deviating holders"),
+    "C17": dict(
+        text="Theorems for every key capacity, message vector and reveal/hide mask (list induction; field tactic over an abstract field): BBS and PS sign-then-verify; a valid signature fails under another weighted message sum (single change under a non-zero generator), another signature component, another e, another key; proof of knowledge complete for every partition (partition identity msm = revealed + hidden); special soundness with explicit extractors (BBS: opening of the public term and, for v<>0, a valid (A',e') on the complete vector; PS: opening of J and a valid signature (s1, s2 - t*s1)); commitment sub-protocol extraction. "
+             "Correspondence at the knox level: all 2^n partitions for n<=4, random partitions and 13 deviation kinds for capacities 1..8 (thorough 1..16), signature verification after every single-component change, and the complete get_hidden_message_proofs map, BBS and PS.",
+        design="§7 C17",
+        note="Unforgeability (q-SDH / PS assumption) is assumed. Hash-derived values (BBS e, generators; PS m', sigma_1) are arbitrary in the theorems and pseudo-logs in executed cases.",
+        technique="Coq theorems (field/ring + list induction; explicit extractors) + differential correspondence at the signature-suite API"),
 }
 
 PLANNED = {
